@@ -566,6 +566,7 @@ def c14(pid, tier, work, replay):
         for lazy in ("0", "1"):
             runs.append(("c14-race-%s-%d" % (lazy, i), "viprace",
                          ["rpcstress", str(s * 100 + 50 + i), sized(tier, "6", "8"), str(sized(tier, 15, 60)), "pipe", lazy, "@TRACE", "@STATUS"], "real"))
+    runs.append(("c14-first", "viprace", ["rpcfirst", str(s), str(sized(tier, 150, 2000)), "4", "@TRACE", "@STATUS"], "real"))
     return event_check(
         pid, tier, work, "VipRpcTrace", "VipRpcTrace.cfg", [("VipRpcMC", "VipRpcMC.cfg")], runs,
         "2x3 (faketime) and 2x8 (race build) concurrent callers with unique tokens on both ends of one connection, nested call-backs of depth 0-2, "
